@@ -203,22 +203,28 @@ def engineNext (s : St) (x : Ext) : St :=
     | nxt :: more => { s with engine := some { e with cur := nxt, rest := more }, expected := nxt.accept }
     | [] => activateOutbound { s with haveK := true } x
 
-/-- `_negotiate_keys` (→ `_send_kex_init`?, `_parse_kex_init`, `kex_engine.start_kex`) -/
-def negotiateKeys (s : St) (seqno : Nat) (x : Ext) : St :=
+/-- first half of `_negotiate_keys`: block user sends; answer a peer-initiated exchange with our KEXINIT -/
+def ensureLocalKexInit (s : St) : St :=
   let s := { s with clearToSend := false }
-  let s := if ¬ s.localKexInit then sendKexInit s else s
-  s.andThen fun s =>
+  if ¬ s.localKexInit then sendKexInit s else s
+
+/-- `_parse_kex_init` followed by `kex_engine.start_kex()` -/
+def parseKexInit (s : St) (seqno : Nat) (x : Ext) : St :=
   match x.kex with
   | .malformed => s.fail .internal
   | k =>
-    let (ei, agreed) := scanMarkers s.server s.advertiseStrict x.kexNames (none, s.agreedStrict)
-    let s := { s with remoteExtInfoC := ei == some "ext-info-c", agreedStrict := agreed }
+    let sc := scanMarkers s.server s.advertiseStrict x.kexNames (none, s.agreedStrict)
+    let s := { s with remoteExtInfoC := sc.1 == some "ext-info-c", agreedStrict := sc.2 }
     if s.agreedStrict ∧ ¬ s.initialKexDone ∧ seqno ≠ 0 then s.fail .strictOrder else
     match k with
     | .ok e =>
       ({ s with engine := some e, kexScript := some e }.sendAll e.startSends).andThen fun s =>
         { s with expected := e.cur.accept }
     | _ => s.fail .incompatible
+
+/-- `_negotiate_keys` (→ `_send_kex_init`?, `_parse_kex_init`, `kex_engine.start_kex`) -/
+def negotiateKeys (s : St) (seqno : Nat) (x : Ext) : St :=
+  (ensureLocalKexInit s).andThen fun s => parseKexInit s seqno x
 
 /-- `_parse_newkeys` (→ `_activate_inbound`) -/
 def parseNewkeys (s : St) (x : Ext) : St :=
@@ -284,16 +290,12 @@ def dispatch (T : Tables) (s : St) (ptype seqno : Nat) (payload : Bytes) (x : Ex
   else if (authTable T s).contains ptype then applyHandler s x.handler
   else fallback T s ptype seqno
 
-/-- one received packet: `read_message` bookkeeping, then the loop body -/
-def recv (T : Tables) (s : St) (ptype : Nat) (payload : Bytes) (x : Ext) : St :=
-  let seqno := s.seqIn
-  let next := (s.seqIn + 1) % SEQ_MOD
-  if next = 0 ∧ ¬ s.initialKexDone then s.fail .rollover else
-  let s := { s with seqIn := next, rx := s.rx ++ [ptype] }
-  if ptype = MSG_IGNORE then enforceStrict s
-  else if ptype = MSG_DISCONNECT then { s with active := false, err := some .disconnect }
-  else if ptype = MSG_DEBUG then enforceStrict s
-  else if s.expected ≠ [] then
+/-- `read_message` bookkeeping for a packet of type `t`: next inbound sequence number, ghost history -/
+def bump (s : St) (t : Nat) : St := { s with seqIn := (s.seqIn + 1) % SEQ_MOD, rx := s.rx ++ [t] }
+
+/-- the expected-packet test and what follows it -/
+def afterExpected (T : Tables) (s : St) (ptype seqno : Nat) (payload : Bytes) (x : Ext) : St :=
+  if s.expected ≠ [] then
     if ¬ s.expected.contains ptype then s.fail (if s.agreedStrict then .strictOrder else .ssh)
     else
       let s := { s with expected := [] }
@@ -301,9 +303,21 @@ def recv (T : Tables) (s : St) (ptype : Nat) (payload : Bytes) (x : Ext) : St :=
       else dispatch T s ptype seqno payload x
   else dispatch T s ptype seqno payload x
 
+/-- the loop body for one packet (`seqno` = the number `read_message` stamped on it) -/
+def body (T : Tables) (s : St) (ptype seqno : Nat) (payload : Bytes) (x : Ext) : St :=
+  if ptype = MSG_IGNORE then enforceStrict s
+  else if ptype = MSG_DISCONNECT then { s with active := false, err := some .disconnect }
+  else if ptype = MSG_DEBUG then enforceStrict s
+  else afterExpected T s ptype seqno payload x
+
+/-- one received packet: `read_message` (roll-over guard, counters), then the loop body -/
+def recv (T : Tables) (s : St) (ptype : Nat) (payload : Bytes) (x : Ext) : St :=
+  if (s.seqIn + 1) % SEQ_MOD = 0 ∧ ¬ s.initialKexDone then s.fail .rollover
+  else body T (bump s ptype) ptype s.seqIn payload x
+
 def step (T : Tables) (s : St) : Ev → St
-  | .recv t p x => if s.active then recv T s t p x else s
-  | .rekey => if s.active ∧ ¬ s.inKex then sendKexInit s else s
+  | .recv t p x => if s.active ∧ s.err.isNone then recv T s t p x else s
+  | .rekey => if s.active ∧ s.err.isNone ∧ ¬ s.inKex then sendKexInit s else s
 
 def run (T : Tables) (s : St) (evs : List Ev) : St := evs.foldl (step T) s
 
